@@ -19,6 +19,7 @@ class Reporter:
         self.tables = {}
         self.assumptions = []
         self.trusted = []
+        self.unjudged = []      # inner anchors / partial floors: the rule could not recognise the structure it reasons about
 
     # ---- rule registration
     def rule(self, rid, text):
@@ -44,16 +45,34 @@ class Reporter:
         return self.ob(rid, key, False, msg, loc, extra)
 
     def floor(self, rid, what, count, minimum):
-        """fail closed when a rule matches fewer instances than confirmed by hand"""
-        self.ob(rid, "floor:%s" % what, count >= minimum,
-                "%s: %d instance(s) found, at least %d expected (anchor lost or rule matches nothing)"
-                % (what, count, minimum))
+        """a rule that matches NOTHING fails closed (the engine or the tree changed fundamentally); a rule that matches fewer
+        instances than on the confirmed tree is reported as UNJUDGED for the missing part - code was restructured in a way the
+        rule does not read, which is not evidence of a violation"""
+        if count == 0:
+            self.ob(rid, "floor:%s" % what, False,
+                    "%s: no instance found (at least %d on the confirmed tree): the rule matches nothing" % (what, minimum))
+            return
+        if count < minimum:
+            self._unjudged(rid, "floor:%s" % what, "%s: %d instance(s) found, %d on the confirmed tree" % (what, count, minimum))
+            return
+        self.ob(rid, "floor:%s" % what, True, "%s: %d instance(s) (sanity bound %d)" % (what, count, minimum))
 
     def anchor(self, rid, name, obj):
-        if obj is None or obj == [] or obj == {}:
-            self.fail(rid, "anchor:%s" % name, "anchor lost: %s not found in the analysed program" % name)
+        """entry anchors (a function named by the property is gone: `a::b::c` with no body) fail closed; inner anchors (the
+        function is there but the construct the rule reasons about is not recognised) make the rule UNJUDGED"""
+        if obj is None or obj == [] or obj == {} or obj is False or obj == set() or obj == ():
+            is_entry = obj is None and "::" in name and "|" not in name and " " not in name.strip()
+            if is_entry:
+                self.fail(rid, "anchor:%s" % name, "anchor lost: %s not found in the analysed program" % name)
+            else:
+                self._unjudged(rid, "anchor:%s" % name, "%s not recognised in the analysed program" % name)
             return False
         return True
+
+    def _unjudged(self, rid, key, msg):
+        self.rules.setdefault(rid, {"text": "", "instances": 0, "discharged": 0})
+        self.unjudged.append({"rule": rid, "key": "%s|%s" % (rid, key), "message": msg})
+        print("UNJUDGED property=%s rule=%s %s" % (self.pid, rid, msg))
 
     def note(self, msg):
         self.notes.append(msg)
@@ -98,6 +117,7 @@ class Reporter:
             "rule": "instances are enumerated from the extracted program (never from a frozen list); distinct = distinct instance keys",
             "exhaustive": True,
             "checker_cmd": "./check %s --tier %s" % (self.pid, self.tier),
+            "unjudged": self.unjudged,
             "trusted_base": ["rustc nightly MIR construction and callee resolution", "ccfacts driver (fact dump)",
                              "python rule engines in /verif/analysis", "hand-written tables printed under coverage.tables"] + self.trusted,
             "rules": self.rules,
